@@ -1,5 +1,5 @@
 (* C08 - inclusions p <= Z <= W <= lex (both modes).  (p <= c <= W: see the c-inference development.) *)
-From InfOCF Require Import Core Tol Form Model Spec Exec ThmIncl ThmPExt.
+From InfOCF Require Import Core Tol Form Model Spec Exec CModel ThmIncl ThmPExt ThmCW.
 From InfOCFProps Require Import Ex.
 
 (* on the definitions, for every world list (any signature size, feasible worlds included) and partition *)
@@ -35,6 +35,16 @@ Proof. exact ext_chain_full. Qed.
 Print Assumptions C08_p_sub_z_extended.
 
 (* the inclusions are strict on the birds base: (w|p) separates Z from W *)
+(* c <= W at formula level (strict mode, distinct indices): from a falsifying world of the query that no verifying world
+   dominates, impacts are built that form a c-representation of D not accepting the query *)
+Theorem C08_c_sub_w_definition : forall n D P q, part_strict n D = Some P -> NoDup (map ckey D) -> c_spec_prop n D q -> w_spec (worlds n) P q = true.
+Proof. exact c_sub_w. Qed.
+Print Assumptions C08_c_sub_w_definition.
+Theorem C08_c_sub_w : forall n D P q, D <> [] -> part_strict n D = Some P -> NoDup (map ckey D) -> c_infer_prop n D q ->
+  Model.infer n SysW false D q = Ans true.
+Proof. exact c_sub_w_answers. Qed.
+Print Assumptions C08_c_sub_w.
+
 Example birds_separates : infer 4 SysZ false birds q_wp = Ans false /\ infer 4 SysW false birds q_wp = Ans true
   /\ infer 4 SysP false birds q_nfp = Ans true /\ infer 4 SysLex false birds q_nfp = Ans true.
 Proof. vm_compute. repeat split. Qed.
